@@ -25,21 +25,21 @@ func init() {
 		ID:       "C03",
 		Title:    "RoaringBitmap behaves as a set of uint32 with complete ascending enumeration",
 		Quick:    700,
-		Thorough: 6000,
+		Thorough: 4500,
 		Gen:      gen,
 		Corpus:   corpus,
 		Impl:     impl,
 		Check:    check,
 		NonTrivial: func(c core.Case, out []string) bool {
 			// at least one enumeration over ≥ 2 buckets or over a bucket that was converted
-			for _, t := range []string{"multi", "dense", "large", "history", "magnitude"} {
+			for _, t := range []string{"multi", "dense", "large", "history", "magnitude", "handles"} {
 				if strings.Contains(c.Tag, t) {
 					return true
 				}
 			}
 			return false
 		},
-		Rule:        "op sequences (add/rm/has/len/fill/drain/range/all/iter/iterk/rep) on a zero-value RoaringBitmap over 1–8 high-16-bit buckets; light cases: small fills/drains, bucket removal at the lowest/middle/highest key, boundary values; heavy cases: scripted events (bucket taken to exactly 4095/4096, duplicate there, conversion by one new value below/above/in the middle or inside a bulk fill, dense bucket drained to 1, to 0, re-created, second conversion, absent removals, bulk traffic on dense buckets), each followed by the representation dump and enumerations (k at bucket boundaries, 1, Len, Len+1); wave-3 streams: large (buckets crossing 4096 repeatedly; a bucket with 60000–65536 members; 300–1200 buckets emptied in descending/random/ascending key order; dense buckets with long empty word runs and isolated members, All/Range/Iter each), history (5–20 fill–drain cycles on one bucket, the same add/rm repeated, an iterator created and dropped at every stage), magnitude (k·65536−1, k·65536, k·65536+1 for k ∈ {1,2,255,256,257,32767,32768,65535,random} in sparse and dense buckets); non-trivial = one of these streams or the sequence enumerates ≥ 2 buckets or a bucket taken across the 4096 threshold; distinct by hash of the op list",
+		Rule:        "op sequences (add/rm/has/len/fill/drain/range/all/iter/iterk/rep) on a zero-value RoaringBitmap over 1–8 high-16-bit buckets; light cases: small fills/drains, bucket removal at the lowest/middle/highest key, boundary values; heavy cases: scripted events (bucket taken to exactly 4095/4096, duplicate there, conversion by one new value below/above/in the middle or inside a bulk fill, dense bucket drained to 1, to 0, re-created, second conversion, absent removals, bulk traffic on dense buckets), each followed by the representation dump and enumerations (k at bucket boundaries, 1, Len, Len+1); wave-3 streams: large (buckets crossing 4096 repeatedly; a bucket with 60000–65536 members; 300–1200 buckets emptied in descending/random/ascending key order; dense buckets with long empty word runs and isolated members, All/Range/Iter each), history (5–20 fill–drain cycles on one bucket, the same add/rm repeated, an iterator created and dropped at every stage), magnitude (k·65536−1, k·65536, k·65536+1 for k ∈ {1,2,255,256,257,32767,32768,65535,random} in sparse and dense buckets); wave-4 stream handles: Seq values from All() held in 4 slots (obtained while empty, before a conversion, before a bucket vanishes / is re-created) and ranged later, twice, nested, by two Pull cursors; 2–4 RoaringBitmapIter values alive and advanced alternately in the same sparse / dense / different buckets, across bucket boundaries; nested Iter (itpairs); non-trivial = one of these streams or the sequence enumerates ≥ 2 buckets or a bucket taken across the 4096 threshold; distinct by hash of the op list",
 		Classify:    classify,
 		Facts:       facts,
 		Parallel:    true,
@@ -64,6 +64,11 @@ func corpus() []core.Case {
 		{Lines: []string{"@ C03 rb", "add 5", "add 196613", "fill 1 100 4096 2", "rep", "add 65537", "rep", "range 1", "range 2", "all 4098", "all 4099", "iterk 4098", "iter", "rm 65537", "rm 65736", "rep", "add 65737", "rep", "iter"}, Tag: "corpus-dense-multi"},
 		// a bitmap container reduced to one member in word 3 (words 0–2 empty), then word 1023 too: All, Range, Iter each
 		{Lines: []string{"@ C03 rb", "fill 2 1000 4097 1", "add 171072", "drain 2 1000 4097 1", "add 131269", "rm 171072", "rep", "all 0", "range 0", "iter", "iterk 1", "add 196607", "rep", "all 0", "range 0", "iter", "rm 131269", "all 0", "range 0", "iter"}, Tag: "corpus-large-sparse-words-dense"},
+		// handle reuse (wave 4): two iterators in one sparse bucket; a Seq obtained while empty and ranged twice; a Seq ranged twice / nested / two Pull cursors
+		{Lines: []string{"@ C03 rb", "add 1", "add 2", "it 0", "it 1", "itnext 0 1", "itnext 1 2", "itnext 0 1"}, Tag: "corpus-handles"},
+		{Lines: []string{"@ C03 rb", "seq 0", "add 5", "seqrange 0 0", "seqrange 0 0"}, Tag: "corpus-handles"},
+		{Lines: []string{"@ C03 rb", "add 1", "add 2", "seq 0", "seqtwice 0 1", "seqnest 0 2", "pull2 0 0"}, Tag: "corpus-handles"},
+		{Lines: []string{"@ C03 rb", "seq 2", "it 3", "itnext 3 1", "itpairs 1", "fill 0 10 4096 1", "seq 1", "it 0", "it 1", "itnext 0 64", "itnext 1 1", "itnext 0 2", "add 5", "itnext 0 1", "seqtwice 1 3", "seqnest 2 1", "pull2 1 2", "itpairs 2", "drain 0 0 65536 1", "seqrange 1 0", "seqrange 2 0", "add 70000", "add 9", "pull2 2 1", "it 2", "it 0", "itnext 2 2", "itnext 0 1", "itnext 2 1", "seqrange 3 0", "itnext 1 1"}, Tag: "corpus-handles-dense"},
 	}
 	if !hooks {
 		for i := range cs {
